@@ -60,6 +60,7 @@ fn main() {
                 start: arg_val(&args, "--start").unwrap().parse().unwrap(),
                 budget_s: arg_val(&args, "--budget").unwrap().parse().unwrap(),
                 dir: PathBuf::from(arg_val(&args, "--dir").unwrap()),
+                verif_dir: PathBuf::from(arg_val(&args, "--verif-dir").unwrap_or_else(|| "/verif".into())),
             };
             run_with_big_stack(move || {
                 let mut m = mon::make(&id).unwrap_or_else(|| usage());
@@ -79,8 +80,10 @@ fn main() {
                     std::process::exit(3);
                 }
             });
+            let vd = PathBuf::from(arg_val(&args, "--verif-dir").unwrap_or_else(|| "/verif".into()));
             run_with_big_stack(move || {
                 let mut m = mon::make(&id).unwrap();
+                m.set_known(&open_known_signatures(&vd, &id));
                 let v = replay_case(m.as_mut(), &case);
                 println!("{}", serde_json::to_string(&v).unwrap());
                 if v["verdict"] == "violated" {
@@ -97,8 +100,10 @@ fn main() {
             let id = rec["property"].as_str().unwrap_or_else(|| usage()).to_string();
             let which = if args.iter().any(|a| a == "--original") { "case" } else { "shrunk" };
             let case = rec.get(which).cloned().unwrap_or(rec["case"].clone());
+            let vd = PathBuf::from(arg_val(&args, "--verif-dir").unwrap_or_else(|| "/verif".into()));
             run_with_big_stack(move || {
                 let mut m = mon::make(&id).unwrap_or_else(|| usage());
+                m.set_known(&open_known_signatures(&vd, &id));
                 let v = replay_case(m.as_mut(), &case);
                 println!("case: {}", serde_json::to_string_pretty(&case).unwrap());
                 println!("verdict: {}", v["verdict"]);
